@@ -109,7 +109,8 @@ def emit_cases(ctx, label, **consts):
                                   trusted=sorted(v[9]['$set']),
                                   cas=sorted(v[10]['$set']),
                                   revoked=sorted(v[11]['$set']),
-                                  userSet=v[12], globalSet=v[13]))
+                                  userSet=v[12], globalSet=v[13],
+                                  shape=v[14], hostform=v[15]))
         ctx.require(cases, f'no cases printed by TLC for {label}')
         return cases
     return table
@@ -128,7 +129,8 @@ def main(ctx):
         case = dict(rp['case'], rule=rp['rule'],
                     disc=rp.get('disc', ['dropPortRevoked'] if
                                 rp.get('asis') else []),
-                    shuffle=rp.get('shuffle', False))
+                    shuffle=rp.get('shuffle', False),
+                    force_forms=rp.get('force_forms'))
         sets = rp.get('sets') or [[], [], []]
         case.update(trusted=sets[0], cas=sets[1], revoked=sets[2])
         os.makedirs(tlc.WORK, exist_ok=True)
@@ -158,6 +160,11 @@ def main(ctx):
     tables.append(('cbcert', emit_cases(
         ctx, 'owner callbacks x CA listed / not listed / revoked x every '
         'certificate defect', Focus='"cbcert"'), 450 if quick else None))
+    tables.append(('shape', emit_cases(
+        ctx, 'connection shape (direct / tunnelled) x host as name, IPv4, '
+        'IPv6 literal x what the pattern matches through',
+        Focus='"shape"', LineKeys='{"K1", "CA1"}'),
+        450 if quick else None))
     tables.append(('sources', emit_cases(
         ctx, 'where the trust data comes from: default file, '
         'UserKnownHostsFile / GlobalKnownHostsFile, lines split over them',
@@ -197,6 +204,8 @@ def main(ctx):
             ('skipRevokedKey', dict(LineKeys='{"K1", "CA1"}')),
             ('princIgnored', dict(Focus='"cert"')),
             ('cbWaivesCertChecks', dict(Focus='"cbcert"')),
+            ('cidrNeedsPeerAddr', dict(Focus='"shape"',
+                                       LineKeys='{"K1", "CA1"}')),
             ('globalOnlyFallback', dict(Focus='"sources"',
                                         LineKeys='{"K1", "CA1"}'))]
     if not quick:
@@ -228,7 +237,7 @@ def main(ctx):
         resolved = {}
         # the long tables were submitted first; consume the short ones
         # first so that the replay overlaps with the remaining TLC runs
-        order = ['cert', 'trustall', 'callbacks', 'cbcert', 'sources',
+        order = ['cert', 'trustall', 'callbacks', 'cbcert', 'shape', 'sources',
                  'sets3', 'lines', 'sets4', 'lines3']
         tables.sort(key=lambda t: order.index(t[0]))
         for tname, tablef, limit in tables:
@@ -255,6 +264,44 @@ def main(ctx):
                                 'rule': case['rule'], 'accepted': r.accepted,
                                 'error': r.exc_class,
                                 'server_saw_auth': r.server_begin_auth})
+        # ---- 2b. every pair of spellings of two lines ---------------------
+        # a line that matches (decoy key) next to a line that does not
+        # match (the presented key / CA), in both orders: lines must not
+        # influence each other whatever their spelling
+        L2 = lambda mk, mt, k: {'marker': mk, 'match': mt, 'key': k,
+                                'src': 'arg', 'via': 'name'}
+        good = {'key': 'K1', 'kind': 'key', 'ca': 'none', 'type': 'host',
+                'win': 'in', 'princ': 'covers', 'certSig': True,
+                'holds': True}
+        goodc = dict(good, kind='cert', ca='CA1')
+        npair = 0
+        for port in ('def', 'nondef'):
+            nn = len(HT.pattern_forms('name', port, HT.HOST, HT.HOST))
+            no = len(HT.pattern_forms('none', port, HT.HOST, HT.HOST))
+            for mk, kx, ky, pres in (('plain', 'K2', 'K1', good),
+                                     ('ca', 'CA2', 'CA1', goodc)):
+                for i in range(nn):
+                    for j in range(no):
+                        if quick and (mk == 'ca' or port == 'nondef') and \
+                                (i + j + ctx.seed) % 4:
+                            continue
+                        for rev in (False, True):
+                            lines = [L2(mk, 'name', kx), L2(mk, 'none', ky)]
+                            ff = [i, j]
+                            if rev:
+                                lines.reverse()
+                                ff.reverse()
+                            case = dict(lines=lines, port=port, mode='file',
+                                        cbKey=False, cbCA=False, pres=pres,
+                                        rule=False, disc=[], trusted=[],
+                                        cas=[], revoked=[], force_forms=ff)
+                            # variant 0: host by name, no alias, bytes
+                            r = HT.attempt(case, 0, workdir=work)
+                            total += 1
+                            npair += 1
+                            judge(ctx, HT, 'spelling pairs', case, 0, r,
+                                  tally)
+        ctx.notes.append(f'pairs of spellings of two lines: {npair} attempts')
         # ---- 3. client options that must not change the decision --------
         base = resolved
         core = core_cases(base['lines'])
@@ -323,7 +370,7 @@ def core_cases(table):
     """trusted plain key, revoked plain key, trusted CA certificate,
     revoked CA, untrusted key (default port)."""
     L = lambda mk, k: {'marker': mk, 'match': 'name', 'key': k,
-                       'src': 'arg'}
+                       'src': 'arg', 'via': 'name'}
     want = [([L('plain', 'K1')], 'key'),
             ([L('plain', 'K1'), L('revoked', 'K1')], 'key'),
             ([L('ca', 'CA1')], 'cert'),
@@ -404,6 +451,8 @@ def slim(case):
                               'pres')}
     if case.get('userSet', 'na') != 'na':
         d['userSet'], d['globalSet'] = case['userSet'], case['globalSet']
+    if case.get('shape', 'na') != 'na':
+        d['shape'], d['hostform'] = case['shape'], case['hostform']
     return d
 
 
@@ -419,6 +468,7 @@ def judge(ctx, HT, tname, case, variant, r, tally):
                        case.get('revoked', [])],
               'opt': r.info.get('opt') if case.get('opt_slice') else None,
               'shuffle': bool(case.get('shuffle')),
+              'force_forms': case.get('force_forms'),
               'known_hosts': r.kh_text, 'forms': r.forms, 'info': r.info}
     if r.mitm_errors:
         raise MachineryError(f'wire observer failed: {r.mitm_errors}')
